@@ -557,5 +557,13 @@ def programs(draw, max_stmts=6, max_depth=3, allow_errors=True, regex=True):
     t = T(draw, allow_errors=allow_errors, regex=regex)
     k = 1 + t.n(max_stmts)
     stmts = [t.stmt(t.n(max_depth + 1)) for _ in range(k)]
+    if t.n(12) == 0:
+        # every evaluation of a literal yields a fresh object
+        empty = t.pick([Call('list', [], 'lit'), Call('dict', [], 'lit'), Call('list', [Call('list', [], 'lit')], 'lit')])
+        t.use('literal:fresh-per-evaluation')
+        stmts += [('Assign', 'nn', Call('map', [Call('list', [Val(D(1)), Val(D(2)), Val(D(3))], 'lit'), Lam(['v'], empty)])),
+                  Call('push', [Call('__getitem__', [Name('nn'), Val(D(0))], 'idx'), Val(D(9))]) if empty[1] == 'list' else
+                  Call('__setitem__', [Call('__getitem__', [Name('nn'), Val(D(0))], 'idx'), Val('k'), Val(D(9))], 'stmt'),
+                  Name('nn')]
     env = draw(env_strategy())
     return stmts, env, sorted(t.used)
